@@ -26,14 +26,16 @@ impl IBig {
     pub const ONE: IBig = IBig { _p: 0 };
     #[verifier::external_body]
     pub fn is_zero(&self) -> (r: bool) ensures r == (self.v() == 0) { unimplemented!() }
-    /// Signed::sign (zero: Positive by the representation invariant; not needed by any caller here, left open)
+    /// Signed::sign.  Zero is Positive: representation invariant of dashu-int (`Repr::with_sign` / `Repr::neg` never
+    /// flip the sign of zero, `Repr::sign()` reads the sign of `capacity`; wf_repr "zero is positive", C05/C17)
     #[verifier::external_body]
     pub fn sign(&self) -> (r: Sign)
-        ensures self.v() > 0 ==> r == Sign::Positive, self.v() < 0 ==> r == Sign::Negative { unimplemented!() }
+        ensures self.v() > 0 ==> r == Sign::Positive, self.v() < 0 ==> r == Sign::Negative,
+            self.v() == 0 ==> r == Sign::Positive { unimplemented!() }
     /// Signed::is_positive = (sign() == Positive)
     #[verifier::external_body]
     pub fn is_positive(&self) -> (r: bool)
-        ensures self.v() > 0 ==> r, self.v() < 0 ==> !r { unimplemented!() }
+        ensures self.v() > 0 ==> r, self.v() < 0 ==> !r, self.v() == 0 ==> r { unimplemented!() }
     /// BitTest::bit on the two's complement view: bit 0 is the parity
     #[verifier::external_body]
     pub fn bit(&self, n: usize) -> (r: bool) ensures n == 0 ==> r == (self.v() % 2 != 0) { unimplemented!() }
